@@ -392,6 +392,29 @@ func checkStacks(c *engine.Ctx, rule string) {
 				}
 			}
 		}
+		// a stream stored into a field of the receiver is visible to the goroutines that use that field from that moment:
+		// it must not be stored before the configured layers are applied to it (the raw wire would be written to)
+		if bad == "" {
+			engine.ForEachInstr(f, func(in ssa.Instruction) {
+				st, ok := in.(*ssa.Store)
+				if !ok || bad != "" || !isStreamType(st.Val.Type()) {
+					return
+				}
+				fv, base := engine.LoadedField(st.Addr)
+				if fv == nil || base == nil {
+					return
+				}
+				if _, local := base.(*ssa.Alloc); local {
+					return
+				}
+				for _, layer := range []*ssa.Call{enc, comp} {
+					if layer != nil && engine.InstrReaches(in, layer) && !engine.InstrReaches(layer, in) {
+						bad = fmt.Sprintf("the stream is stored into field %s at %s before the %s layer is applied further down: whoever uses that field meanwhile writes to the raw connection", fv.Name(), p.Pos(in.Pos()), engine.Describe(layer))
+						badPos = in.Pos()
+					}
+				}
+			})
+		}
 		if bad != "" {
 			c.Violate(name+">consumers", badPos, nil, "%s", bad)
 		} else if nCons == 0 {
